@@ -86,6 +86,12 @@ impl Cfg {
 /// All configurations, canonicalised to distinct (flags, window) pairs; returns one
 /// representative per class. `wbits` is the menu of window_bits values.
 pub fn canonical_cfgs(wbits: &[u8], with_ctor1: bool) -> (Vec<Cfg>, usize) {
+    canonical_cfgs_ext(wbits, with_ctor1, true)
+}
+
+/// `merge_clamped = false` keeps one class per requested window_bits value (does not assume that
+/// values above 15 behave like 15).
+pub fn canonical_cfgs_ext(wbits: &[u8], with_ctor1: bool, merge_clamped: bool) -> (Vec<Cfg>, usize) {
     let mut seen: BTreeMap<(i32, u8, bool), Cfg> = BTreeMap::new();
     let mut total = 0;
     for &w in wbits {
@@ -95,7 +101,7 @@ pub fn canonical_cfgs(wbits: &[u8], with_ctor1: bool) -> (Vec<Cfg>, usize) {
                     let c = Cfg { level, strat, zlib, wbits: w, ctor: 0 };
                     total += 1;
                     let comp = c.make();
-                    seen.entry((comp.flags(), w.min(15), zlib)).or_insert(c);
+                    seen.entry((comp.flags(), if merge_clamped { w.min(15) } else { w }, zlib)).or_insert(c);
                     if with_ctor1 && w == 15 {
                         let c1 = Cfg { ctor: 1, ..c };
                         total += 1;
@@ -412,6 +418,7 @@ pub fn run(tier: &str, c10: bool) -> i32 {
     let mut inputs: Vec<Input> = small;
     let n_small = inputs.len();
     inputs.extend(corpus::medium_inputs());
+    let straddle = corpus::straddle_inputs(th);
     let n_shapes = specs.len();
     // ---- configuration space -----------------------------------------------------------
     let levels_small: Vec<u8> = (0..=10).chain([11, 12, 100, 255]).collect();
@@ -426,9 +433,18 @@ pub fn run(tier: &str, c10: bool) -> i32 {
     rep.set("canonical_configurations", json!(cfgs_all.len()));
     rep.set("configurations_before_canonicalisation", json!(cfg_total));
     // ---- explore -----------------------------------------------------------------------
-    let accs = par_for(inputs.len() + n_shapes, Acc::new, |i, acc| {
+    let accs = par_for(inputs.len() + n_shapes + straddle.len(), Acc::new, |i, acc| {
         watchdog::tick(i as u64, 0);
-        if i < inputs.len() {
+        if i >= inputs.len() + n_shapes {
+            let inp = &straddle[i - inputs.len() - n_shapes];
+            if c10 {
+                // every level x strategy at window_bits 15 (the RLE branch reads the mirror area unmasked)
+                let cf: Vec<Cfg> = cfgs_all.iter().filter(|c| c.wbits == 15 && c.ctor == 0 && !c.zlib).cloned().collect();
+                c10_case(inp, &cf, acc, &rep, false);
+            } else {
+                c01_case(inp, &levels_long, acc, &rep, false);
+            }
+        } else if i < inputs.len() {
             let inp = &inputs[i];
             if c10 {
                 c10_case(inp, &cfgs_all, acc, &rep, inp.data.len() >= 3 && i % 7 == 0);
